@@ -87,6 +87,22 @@ def corpus():
     m["tasks"][1]["marks"] = ["try_last"]
     m["tasks"][2]["force_task"] = True
     out.append(("corpus-afterfn", m))
+    # user-chosen names that look like console markup: repeated-task ids /raw, /, bold …, node names with brackets
+    def named(spec, tids, nname):
+        for t, i in zip(spec["tasks"], tids):
+            t["tid"] = i
+        spec["nname"] = nname
+        return spec
+    out.append(("corpus-markup-cycle", named({"tasks": [T(0, deps=[21], prods=[20]), T(1, deps=[20], prods=[21])], "py": [], "wrap": [], "stale": False},
+                                             ["/raw", "/"], {"20": "[bold]", "21": "[x]"})))
+    out.append(("corpus-markup-aftercycle", named({"tasks": [T(0, prods=[20], after=[1]), T(1, prods=[21], after=[0])], "py": [], "wrap": [], "stale": False},
+                                                  ["/bold", "red]x[/red"], {"20": "[red]x[", "21": "]"})))
+    out.append(("corpus-markup-shared", named({"tasks": [T(0, deps=[10], prods=[20]), T(1, deps=[10], prods=[20], module=1), T(2, deps=[20])], "py": [], "wrap": [], "stale": False},
+                                              ["/raw", "link=a", "["], {"20": "[link=a]", "10": "[1]"})))
+    out.append(("corpus-markup-sharedpy", named({"tasks": [T(0, prods=[20]), T(1, prods=[20])], "py": [20], "wrap": [], "stale": False},
+                                                ["/", "bold"], {"20": "[/x]"})))
+    out.append(("corpus-markup-ok", named({"tasks": [T(0, deps=[10], prods=[20]), T(1, deps=[20], prods=[21], after=[0]), T(2, deps=[21], prods=[22, 23])],
+                                           "py": [23], "wrap": [], "stale": False}, ["/raw", "/", "b][i"], {"20": "[bold]", "21": "[", "22": "[b]y[-b]", "23": "[/z]"})))
     return out
 
 
@@ -265,6 +281,9 @@ def e2e_cases(ctx):
         s["opts"] = dagproj.gen_opts(rng)
         if "pstyle" not in s["tasks"][0]:
             dagproj.add_product_styles(rng, s)
+        # user-chosen names (task ids, node names), many of them looking like console markup, in about half of the projects
+        if "nname" not in s and rng.random() < 0.5:
+            dagproj.add_names(rng, s)
         # about a third of the projects goes through the programmatic interface build(tasks=[…]) (functions of ONE module, either order)
         if rng.random() < 0.33:
             s["iface"] = rng.choice(["tasks-fwd", "tasks-rev"])
@@ -309,6 +328,22 @@ def run_one_e2e(server, spec):
         shutil.rmtree(root, ignore_errors=True)
 
 
+_NAME = __import__("re").compile(r"task_t(\d+)x")
+
+
+def name_to_id(name):
+    """task_t03x / task_t03x[<id>] (possibly prefixed by the module path) -> 3"""
+    m = _NAME.search(str(name).split("::")[-1])
+    return int(m.group(1)) if m else None
+
+
+def derive_picks(obs):
+    picks = [name_to_id(r[0]) for r in obs.get("reports", [])]
+    started = [int(x[1]) for x in obs["log"] if x[0] == "S"]
+    extra = [t for t in started if t not in picks]
+    return picks + extra[:1], bool(extra)
+
+
 def _model_build(drv, spec, existing, obs, force=False, dry=False):
     """Replay one real build in the model; returns list of differences."""
     py = set(spec.get("py", []))
@@ -318,13 +353,13 @@ def _model_build(drv, spec, existing, obs, force=False, dry=False):
     prods = {p for t in spec["tasks"] for p in t["prods"]}
     exist = set(existing) | {n for t in spec["tasks"] for n in t["deps"] if n in py and n not in prods}
     drv.ask(dagproj.model_fs_line(spec, exist))
-    picks, _ = engine.derive_picks(obs)
+    picks, _ = derive_picks(obs)
     ans = drv.ask(f"engine.build force={int(bool(force))} dry={int(bool(dry))} maxfail=inf selk=none selm=none picks={','.join(map(str, picks))}")
     out = []
     if not ans.startswith("ok "):
         return [("model rejects the observed schedule", picks, ans)]
     kv = dict(p.split("=", 1) for p in ans[3:].split(" "))
-    impl_reports = ",".join(f"{engine.name_to_id(r[0])}:{r[1]}" for r in obs.get("reports", []))
+    impl_reports = ",".join(f"{name_to_id(r[0])}:{r[1]}" for r in obs.get("reports", []))
     impl_log = ",".join(x[1] for x in obs["log"] if x[0] == "S")
     if kv["exit"] != str(obs.get("exit")):
         out.append(("exit code", obs.get("exit"), kv["exit"]))
@@ -355,7 +390,8 @@ def check_e2e(ctx, cases):
         canon = ["e2e", [[t["id"], t["module"], t["deps"], t["prods"], t["after"], t.get("after_style"), sorted(t.get("spell", {}).items())] for t in s["tasks"]],
                  s.get("py"), s.get("stale"), s.get("pk"), s.get("dirs"), s.get("subdirs"), sorted((s.get("opts") or {}).items()),
                  sorted((s.get("pyval") or {}).items()), [t.get("dep_form") for t in s["tasks"]], [t.get("prod_style") for t in s["tasks"]],
-                 [[t.get("marks"), t.get("force_task"), sorted((t.get("pstyle") or {}).items())] for t in s["tasks"]], s.get("iface")]
+                 [[t.get("marks"), t.get("force_task"), sorted((t.get("pstyle") or {}).items()), t.get("tid")] for t in s["tasks"]], s.get("iface"),
+                 sorted((s.get("nname") or {}).items())]
         ctx.case(canon, an["ill"] or any(t["deps"] or t["after"] for t in s["tasks"]),
                  {"layer": "e2e", "tasks": [{k: t[k] for k in ("id", "deps", "prods", "after", "spell") if t.get(k) or k == "id"} for t in s["tasks"]],
                   "py": s.get("py"), "ill_formed": an["ill"], "exit": obs.get("exit"), "second_build_exit": rec.get("obs2", {}).get("exit")})
@@ -366,6 +402,8 @@ def check_e2e(ctx, cases):
             ctx.dist[f"e2e:opt:{k_}={v_}"] += 1
         ctx.dist[f"e2e:subdirs={bool(s.get('subdirs'))}"] += 1
         ctx.dist[f"e2e:interface={s.get('iface', 'paths')}"] += 1
+        nm = any(t.get("tid") is not None for t in s["tasks"]) or bool(s.get("nname"))
+        ctx.dist[f"e2e:markup-like-names={nm}:{'ill' if an['ill'] else 'well'}"] += 1
         used = {x for t in s["tasks"] for x in t["deps"] + t["prods"]}
         for kind in ("py", "pk", "dirs"):
             if used & set(s.get(kind, [])):
@@ -387,7 +425,7 @@ def check_e2e(ctx, cases):
         desc = (f"tasks {[[t['id'], t['deps'], t['prods'], t['after']] for t in s['tasks']]}, py {s.get('py')}, pickle {s.get('pk')}, "
                 f"directory nodes {s.get('dirs')}, in-memory nodes with initial value {sorted(s.get('pyval') or {})}, "
                 f"dependency forms {[t.get('dep_form', 'bare') for t in s['tasks']]}, declaration forms {rec["forms"]}, "
-                f"interface {s.get('iface', 'paths')}, markers {[t.get('marks', []) for t in s['tasks']]}, bare @task {[bool(t.get('force_task')) for t in s['tasks']]}, module folders {bool(s.get('subdirs'))}, options {s.get('opts')}")
+                f"interface {s.get('iface', 'paths')}, task ids {[t.get('tid') for t in s['tasks']]}, node name suffixes {s.get('nname')}, markers {[t.get('marks', []) for t in s['tasks']]}, bare @task {[bool(t.get('force_task')) for t in s['tasks']]}, module folders {bool(s.get('subdirs'))}, options {s.get('opts')}")
         if obs.get("raised") or obs.get("died"):
             ctx.violation(f"build() raised {obs.get('raised')} ({desc})", dict(rep, expect="no-raise"), None)
             continue
